@@ -43,6 +43,17 @@ class Rejected(Exception):
     """ODL refused the construction in a documented way."""
 
 
+class BuildCrash(Exception):
+    """A derived functional could not be constructed because evaluating a
+    part failed inside ODL; carries the part so that the check can name the
+    root cause (and recognise known regions)."""
+
+    def __init__(self, built, exc):
+        Exception.__init__(self, '{}: {}'.format(type(exc).__name__, exc))
+        self.built = built
+        self.exc = exc
+
+
 # --------------------------------------------------------------------------
 # spaces
 
@@ -568,7 +579,10 @@ def build_func(space, sd, fd, geo=None):
                 raise Rejected('no reference subgradient at the point')
             sg = _vec(space, sgf)
             sgf = _flatv(space, sg)
-        f = S.BregmanDistance(c.f, p, sg)
+        try:
+            f = S.BregmanDistance(c.f, p, sg)
+        except Exception as e:  # noqa  (constructor evaluates c.f(p))
+            raise BuildCrash(c, e)
         ref = None
         if rv(c) is not None:
             const = -rv(c).value(pf) + geo.inner(sgf, pf)
